@@ -12,12 +12,11 @@ CONSTANTS
   WakeAfterPush = TRUE
   Overflow = FALSE
   Hosts <- BothHosts
-  Muts <- AllMuts
+  Muts = {"none","repaired"}
   Ops = {"o1"}
   Timers = {"s1"}
   Jobs = {"j1"}
   Owner <- OwnC
   AnyTurn = TRUE
-SPECIFICATION XFairSpec
-INVARIANTS XTypeOK PendingBound TypeOK RealSafe CtlClearAfterPoll CtlIgnoreFlush CtlNoTimeout CtlNoFlush CtlDrainAfterBlocking
-PROPERTIES Completes WakeSeen OpSeen TimerSeen
+SPECIFICATION XSpec
+INVARIANTS XTypeOK PendingBound TypeOK RealSafe RepBoth
